@@ -4,7 +4,7 @@ PKGS = ["foo", "lib-x.y+z", "0ad", "a"]
 VERS = ["1.0-1", "2:1.0~rc1+b1", "1", "0.1-2-3"]
 DISTS = ["unstable", "stable-proposed-updates", "experimental", "UNRELEASED", "a.b"]
 URG = ["low", "medium", "high", "emergency", "critical", "LOW"]
-UCOMMENT = ["", " (HIGH for security)", " extra words", " (100% sure)"]
+UCOMMENT = ["", " (HIGH for security)", " extra words", " (100% sure)", " (HIGH for users of x; see NEWS)"]
 PAIRS = [[], [("binary-only", "yes")], [("xs-origin", "vendor"), ("binary-only", "no")], [("a-1", "x y")],
          [("x-coverage", "85%")], [("x-fmt", "%s %(a)d 5%%"), ("binary-only", "yes")], [("x-odd", "{0} \\n $HOME")]]
 CHANGES = ["  * Fix.", "  * Closes: #123, #456", "    continued line", "  * non-ASCII: é ü ß", "  * colon: and # hash",
